@@ -18,7 +18,7 @@ from ..seams import ExecMonitor, Hygiene, StdCapture
 from ..simfs import SimFS
 
 ENGINE = "iosim_csv"
-BUDGET = {"C17": {"quick": 9000, "thorough": 400000}}
+BUDGET = {"C17": {"quick": 12000, "thorough": 400000}}
 WORK = "/sim/work"
 PATH = WORK + "/table.csv"
 
